@@ -244,7 +244,7 @@ ADDED = {
         "establishing cdr(x); (K7) in the form checker a variant member of an AbSyn node is read only where its tag is established. (K8) length-controlled copies into fixed arrays are clamped; (K9) radix-literal digits are compared with the radix; (K10) the macro-expansion cycle test and the push on the active stack use the same object, expansion only on the not-circular side, pushed implies popped. (K11) count agreement (and NULL termination) of every variadic node constructor call in the front end, FOAM generator and support units (about 2000 calls).",
  "C08": "Also (D4) integer counters that are only ever incremented and never reset (state carried across the files of one invocation) "
         "are either frozen with the reason they cannot reach an output, or a violation. (D5) every header field and index libPutHeader writes is assigned by libNewHeader.",
- "C09": "Also (G4) the cells holding the sweep's free-piece index lie inside their pages (= C10 T-carve). (G5) storage freed through a global reference is not left referenced; (G6) the marker's tail-iteration test is not a comparison with the byte-granular scan bound.",
+ "C09": "Also (G4) the cells holding the sweep's free-piece index lie inside their pages (= C10 T-carve). (G5) storage freed through a global reference is not left referenced; (G6) the marker's tail-iteration test is not a comparison with the byte-granular scan bound. (G7) the Linux osMemMap bounds its entry cursor by the table's capacity and guards the look-back at the previous entry.",
  "C10": "Also (T-section) the page request for a new mixed section dominates the capacity formula of sectQmCount; (T-carve) bookkeeping "
         "cells cut from a page by stoAllocInner number floor(bytes/size). (T-btree) a searched B-tree node is not used after a restructuring call; (T-sweep) mark bits of the quanta starting at S are cleared under a test of the tag loaded from sect->info[S].",
  "C12": "Also (J7) no JavaCode fragment built by the generator is dropped. (J5b) single-return runtime methods stay single-return; (J8) operator precedence/associativity table against the Java grammar; (J9) the gj0BCall handlers hand the operands to the Java constructors in order (symbolic evaluation of their list manipulation, rules/listeval.py). (J10) count agreement of the variadic constructors in the Java generator; (J11) character constants that Java's grammar forbids between quotes (backslash, quote, CR, LF) are written as escapes.",
